@@ -571,8 +571,8 @@ macro_rules! en {
             base: stringify!($base),
             variants: || <$t>::variants().iter().map(|v| (format!("{:?}", v), ($asint)(v))).collect(),
             conv: &[
-                ("from_int", |x| <$base>::try_from(x).ok().map(|v| crate::erase(<$t>::from_int(v), &<$t>::variants(), $asint))),
-                $( (stringify!($src), |x| <$src>::try_from(x).ok().map(|v| crate::erase(<$t as TryFrom<$src>>::try_from(v), &<$t>::variants(), $asint))), )*
+                ("from_int", |x| <$base>::try_from(x).ok().map(|v| crate::erase(<$t>::from_int(v), <$t>::variants, $asint))),
+                $( (stringify!($src), |x| <$src>::try_from(x).ok().map(|v| crate::erase(<$t as TryFrom<$src>>::try_from(v), <$t>::variants, $asint))), )*
             ],
         }
     };
